@@ -278,7 +278,7 @@ func (comp) Extra(prop string, tier string, seed int64, scratch string) *core.Ex
 	_ = logger.SetLogLevel("*:NONE")
 	start := time.Now()
 	rounds, scale, budget := 10, 1, 36*time.Second
-	if prop == "C17" || prop == "C06" || prop == "C16" {
+	if prop != "C14" && prop != "" {
 		rounds, budget = 12, 12*time.Second
 	}
 	c.watchdog = 25 * time.Second
@@ -317,6 +317,14 @@ func (comp) Extra(prop string, tier string, seed int64, scratch string) *core.Ex
 			steps = []func(*collector, int64, int){phaseAdapter}
 		case "C06": // pool limits after concurrent use: eviction keeps running
 			steps = []func(*collector, int64, int){phaseTxEvict, phaseTxLimits}
+		case "C12", "C13": // immunity cache / CrossTxCache under concurrent use: immune items survive, bounds hold at every probe
+			steps = []func(*collector, int64, int){phaseImmunity, phaseCrossTx, phaseImmunityClear}
+		case "C15": // both LRU caches under concurrent use: Len <= capacity at every probe, no lost update of a resident key
+			steps = []func(*collector, int64, int){phaseLRU, phaseCapacityLRU}
+		case "C20": // FIFO sharded cache under concurrent use
+			steps = []func(*collector, int64, int){phaseFifo}
+		case "C05": // the two indexes and the counters at quiescent instants of concurrent histories
+			steps = []func(*collector, int64, int){phaseTxAddOnly, phaseTxMixed, phaseTxClear}
 		case "C16": // the storage unit after concurrent use: cache and persister agree at every quiescent instant
 			steps = []func(*collector, int64, int){phaseStorageUnit}
 		}
